@@ -231,6 +231,7 @@ func init() {
 		p := x.zeroValue(x.resolveType(sig.Results().At(0).Type())).(PtrV)
 		p.Addr = x.allocAddr(st, "bufreader")
 		x.ghostSet(st, "bufsrc", p.Addr, x.identityOf(st, pc.args[0]))
+		x.ghostSet(st, "bodypending", p.Addr, IntLit(0))
 		k(st, []Value{p})
 	}
 	// http.ReadRequest(b): an error, or a request with a URL and a well-formed header map
@@ -243,6 +244,11 @@ func init() {
 			x.oblige(fr, st, "pre", "http.ReadRequest/one-reader-per-connection@"+x.siteLabel(pc.e), Or(Eq(cur, IntLit(0)), Eq(cur, b.Addr)), pc.e)
 			x.Obls[len(x.Obls)-1].Tag = "C10"
 			x.ghostSet(st, "connreader", src, b.Addr)
+			// ... and the body of the previous request read through it must have been consumed
+			// or discarded: whatever is left of it would be parsed as this request
+			pend := x.ghostSel(st, "bodypending", b.Addr)
+			x.oblige(fr, st, "pre", "http.ReadRequest/previous-body-consumed@"+x.siteLabel(pc.e), Eq(pend, IntLit(0)), pc.e)
+			x.Obls[len(x.Obls)-1].Tag = "C10"
 		}
 		sig := pc.fn.Type().(*types.Signature)
 		rt := x.resolveType(sig.Results().At(0).Type())
@@ -260,6 +266,14 @@ func init() {
 		if u, ok := x.specFieldOf(st, req, "URL").(PtrV); ok {
 			u.Addr = x.allocAddr(st, "requrl")
 			heapFieldLV{p: req, field: "URL", ftype: x.resolveType(structFieldType(rt, "URL"))}.Store(x, st, u)
+		}
+		// "ReadRequest ... the Body is always non-nil": it reads from b on demand
+		bt := x.resolveType(structFieldType(rt, "Body"))
+		body := x.allocAddr(st, "reqbody")
+		heapFieldLV{p: req, field: "Body", ftype: bt}.Store(x, st, OpaqueV{T: body, Type: bt})
+		if b, ok := pc.args[0].(PtrV); ok {
+			x.ghostSet(st, "bodyof", body, b.Addr)
+			x.ghostSet(st, "bodypending", b.Addr, body)
 		}
 		k(st, []Value{req, errv})
 	}
